@@ -11,6 +11,9 @@ package filters
 //@   property C05
 //@   ensures r == paeth(a, b, c)
 
+//@ spec opaque func pngRowEnc(rowData []byte, ft int, raw []byte, prev []byte, bpp int) bool = forall k int :: {rowData[k]} 0 <= k && k < len(rowData) ==>
+//@            rowData[k] == byte(raw[k] - pngPred(ft, (k >= bpp ? raw[k-bpp] : 0), prev[k], (k >= bpp ? prev[k-bpp] : 0)))
+
 //@ func decodePNGRow results (res, err)
 //@   property C05
 //@   ghost raw []byte
@@ -18,16 +21,44 @@ package filters
 //@   requires len(raw) == len(rowData) && bytesPerPixel >= 1 && rowLength == len(rowData) && rowNum >= 0
 //@   requires rowNum > 0 ==> len(prevRows) >= rowNum * rowLength
 //@   requires len(prev) == len(rowData)
-//@   requires forall k int :: 0 <= k && k < len(rowData) ==> prev[k] == (rowNum > 0 ? prevRows[(rowNum-1)*rowLength + k] : 0)
-//@   requires forall k int :: 0 <= k && k < len(rowData) ==> 0 <= raw[k] && raw[k] <= 255 && 0 <= prev[k] && prev[k] <= 255
-//@   requires predictor <= 4 ==> forall k int :: 0 <= k && k < len(rowData) ==>
-//@            rowData[k] == byte(raw[k] - pngPred(predictor, (k >= bytesPerPixel ? raw[k-bytesPerPixel] : 0), prev[k], (k >= bytesPerPixel ? prev[k-bytesPerPixel] : 0)))
-//@   ensures inverse: predictor <= 4 ==> !err && len(res) == len(raw) && forall k int :: 0 <= k && k < len(raw) ==> res[k] == raw[k]
+//@   requires forall k int :: {prev[k]} 0 <= k && k < len(rowData) ==> prev[k] == (rowNum > 0 ? prevRows[(rowNum-1)*rowLength + k] : 0)
+//@   requires forall k int :: {raw[k]} 0 <= k && k < len(rowData) ==> 0 <= raw[k] && raw[k] <= 255
+//@   requires forall k int :: {prev[k]} 0 <= k && k < len(rowData) ==> 0 <= prev[k] && prev[k] <= 255
+//@   requires enc: predictor <= 4 ==> pngRowEnc(rowData, predictor, raw, prev, bytesPerPixel)
+//@   ensures inverse: predictor <= 4 ==> !err && len(res) == len(raw) && forall k int :: {res[k]} 0 <= k && k < len(raw) ==> res[k] == raw[k]
 //@   ensures unknown_filter: predictor > 4 && len(rowData) > 0 ==> err
 //@   loop 0:
 //@     invariant 0 <= i && i <= len(rowData) && len(result) == len(rowData) && (predictor > 4 ==> i == 0)
 //@     invariant forall k int :: 0 <= k && k < i ==> result[k] == raw[k]
 //@     decreases len(rowData) - i
+
+//@ spec opaque func pngRowOK(data []byte, img []byte, r int, rs int, rl int, bpp int) bool =
+//@     data[r*rs] <= 4 && pngRowEnc(data[r*rs+1 : r*rs+rs], data[r*rs], img[r*rl : r*rl+rl], (r > 0 ? img[(r-1)*rl : r*rl] : zeros(rl)), bpp)
+
+//@ func applyPNGPredictor results (res, err)
+//@   property C05
+//@   ghost img []byte
+//@   let cols = getIntParam(params, "Columns", 1)
+//@   let colors = getIntParam(params, "Colors", 1)
+//@   let bpc = getIntParam(params, "BitsPerComponent", 8)
+//@   let rl = cols * colors
+//@   let rs = rl + 1
+//@   requires forall k int :: {img[k]} 0 <= k && k < len(img) ==> 0 <= img[k] && img[k] <= 255
+//@   requires rows: forall r int :: {pngRowOK(data, img, r, rs, rl, colors)} 0 <= r && r*rs + rs <= len(data) ==> pngRowOK(data, img, r, rs, rl, colors)
+//@   requires cols >= 1 && colors >= 1 && bpc == 8 && mod(len(data), rs) == 0 ==> len(img) == div(len(data), rs) * rl
+//@   ensures bpc_unsupported: bpc != 8 ==> err
+//@   ensures geometry: cols <= 0 || colors <= 0 ==> err
+//@   ensures inverse: !err ==> len(res) == len(img) && forall k int :: 0 <= k && k < len(img) ==> res[k] == img[k]
+//@   ensures accepts: bpc == 8 && cols >= 1 && colors >= 1 && mod(len(data), rs) == 0 ==> !err
+//@   bind decodePNGRow.raw = img[row*rl : row*rl + rl]
+//@   bind decodePNGRow.prev = (row > 0 ? img[(row-1)*rl : row*rl] : zeros(rl))
+//@   loop 0:
+//@     invariant 0 <= row && row <= numRows && rowSize == rs && rl >= 1 && columns*colors == rl && bytesPerPixel == colors && colors >= 1
+//@     invariant numRows >= 0 && numRows * rowSize == len(data) && len(result) == numRows * rl && len(img) == len(result)
+//@     invariant row * rl >= 0 && row * rl <= len(result) && row * rowSize >= 0
+//@     invariant forall k int :: 0 <= k && k < row * rl ==> result[k] == img[k]
+//@     hint (row+1) * rowSize <= len(data) && (row+1) * rl <= len(result)
+//@     hint pngRowOK(data, img, row, rs, rl, colors)
 
 //@ func applyTIFFPredictor2 results (res, err)
 //@   property C05
